@@ -712,6 +712,7 @@ def replace(eq: str, term: str, replacement: str, rhs_only: tp.Optional[bool] = 
 
     eq_new = ""
     prev = ""
+    seen_eq = False
     idx = eq.find(term)
 
     # go through all appearances of term in eq
@@ -726,7 +727,8 @@ def replace(eq: str, term: str, replacement: str, rhs_only: tp.Optional[bool] = 
         if (idx_follow_op == len(eq) or eq[idx_follow_op] in allowed_follow_ops) and \
                 (before == "" or before in allowed_follow_ops):
             eq_part = eq[:idx]
-            if (rhs_only and "=" in eq_part) or (lhs_only and "=" not in eq_part) or (not rhs_only and not lhs_only):
+            in_rhs = seen_eq or "=" in eq_part
+            if (rhs_only and in_rhs) or (lhs_only and not in_rhs) or (not rhs_only and not lhs_only):
                 eq_new += f"{eq_part}{replacement}"
                 replaced = True
         if not replaced:
@@ -734,6 +736,7 @@ def replace(eq: str, term: str, replacement: str, rhs_only: tp.Optional[bool] = 
 
         # jump to next appearance of term in eq
         prev = eq[idx_follow_op-1:idx_follow_op]
+        seen_eq = seen_eq or "=" in eq[:idx_follow_op]
         eq = eq[idx_follow_op:]
         idx = eq.find(term)
 
